@@ -73,7 +73,7 @@ func runC14(r *Run) {
 	r.rule = "histories on the real checker: (A) default 200/300 ms, entry read every 40-70 ms across its lifetime while the responder flips good->revoked, " +
 		"and read only after the lifetime; (B) two CAs issuing the same subject+serial; (C) two CAs with the same name; (D) two validator instances sharing the " +
 		"table, Cleanup of a third; (E) nextUpdate in the future / past / absent x default {0, 250 ms, 1 h} through calculateEvictionTime and through lookups; " +
-		"(F) zero default; (G) failed queries {garbage, HTTP 500, dropped connection, other serial, stranger-signed} followed by an authentic revoked. " +
+		"(F) zero default; (H) random Add/Value/Delete/Exists/Count/Flush sequences and expiry waits on a real cache2go table vs the table model; (G) failed queries {garbage, HTTP 500, dropped connection, other serial, stranger-signed} followed by an authentic revoked. " +
 		"Non-trivial = a history with at least one lookup after a store"
 	e := &c14Env{r: r, abs: NewAbsCtx(), rsp: NewResponder(), vals: map[string]*Validator{}}
 	defer e.rsp.Close()
@@ -149,6 +149,9 @@ func runC14(r *Run) {
 	for _, v := range e.vals {
 		v.Close()
 	}
+
+	// ---- (H) the cache2go table itself against the table model (stream `ct`) -----------------------
+	c14TableStream(r)
 }
 
 // evictionArithmetic diffs calculateEvictionTime (real code, export shim) against the model's `evict`.
